@@ -380,9 +380,10 @@ theorem value_perm_partial (vo : VOps V) (bo : BOps B) [DecidableEq B] (hcomm : 
     rcases head_typ_perm bo fs fs' h hwf mn with ⟨e1, e2⟩ | ⟨e1, hng⟩
     · rw [e1, e2]
     · rw [← e1]
-      unfold kindOf
       have e : gaugeType = "gauge".toList := by decide
-      rw [if_neg (e ▸ hng), if_neg (e ▸ hng)]
+      have hng' : typOf fs mn ≠ "gauge".toList := by rw [← e]; exact hng
+      unfold kindOf
+      rw [if_neg hng', if_neg hng']
   have hperm := accumulate_perm_partial vo hcomm hassoc fs fs' h mn k
   have hp : (valuesFor plainKey (contribs fs mn) k).Perm (valuesFor plainKey (contribs fs' mn) k) := by
     unfold valuesFor
